@@ -12,6 +12,7 @@ from hypothesis.stateful import RuleBasedStateMachine, invariant, rule
 
 from taskiq import AsyncBroker, Context, SimpleRetryMiddleware, TaskiqDepends, TaskiqMiddleware
 from taskiq.brokers.inmemory_broker import InmemoryResultBackend
+from taskiq.brokers.shared_broker import AsyncSharedBroker
 from taskiq.formatters.json_formatter import JSONFormatter
 from taskiq.kicker import AsyncKicker
 from taskiq.receiver import Receiver
@@ -29,7 +30,7 @@ RULE = (
     "JSON / pickle / JSONFormatter; a plan of 0-3 re-deliveries, each a retry (SimpleRetryMiddleware) or a requeue "
     "(Context.requeue), through the real kicker, formatter bytes and Receiver.callback. Oracle: the labels seen by a "
     "pre_execute middleware, by Context inside the task and in the stored result equal the sent ones in value and type on "
-    "every delivery. (2) 'kicker_histories': a RuleBasedStateMachine over one broker with two tasks and a second broker: "
+    "every delivery. (2) 'kicker_histories': a RuleBasedStateMachine over one broker with two tasks, a shared task (AsyncSharedBroker with a default broker) and a second broker: "
     "rules new_kicker / with_labels / with_task_id / with_broker / kiq on a kicker / kiq directly on the task / "
     "schedule-style kicker built by hand, in any order; model: declared labels are constants, a send carries declared "
     "+ that kicker's own labels, id and broker only. Invariant after every rule: task.labels equals the declared "
@@ -184,39 +185,44 @@ def run_roundtrip(c: Dict[str, Any]) -> Outcome:
 
 class Sim:
     """Applies ops to the real API and to the model; check() compares."""
-    DECL = [{"queue": "high", "prio": 5}, {"flag": True, "ratio": 0.5, "blob": b"\x00\xff"}]
+    DECL = [{"queue": "high", "prio": 5}, {"flag": True, "ratio": 0.5, "blob": b"\x00\xff"}, {"queue": "shared", "z": 1.5}]
 
     def __init__(self) -> None:
         self.loop = asyncio.new_event_loop()
         self.brokers = [QB(), QB()]
         self.snap = [dict(d) for d in self.DECL]
         self.tasks = []
+        AsyncBroker.global_task_registry.clear()
+        self.shared = AsyncSharedBroker()          # task 2 is a shared task sent through the default broker
+        self.shared.default_broker(self.brokers[0])
         for ti, d in enumerate(self.DECL):
             def f(*a: Any, **k: Any) -> None:
                 return None
 
             f.__module__ = __name__
             f.__name__ = f"task{ti}"
-            self.tasks.append(self.brokers[0].register_task(f, task_name=f"task{ti}", **dict(d)))
+            owner = self.shared if ti == 2 else self.brokers[0]
+            self.tasks.append(owner.register_task(f, task_name=f"task{ti}", **dict(d)))
         self.kickers: List[Any] = []       # (kicker, model) ; model = {task, labels, task_id, broker}
         self.expected: List[Any] = []      # per send: model dict
         self.sends_seen = 0
         self.ops: List[Any] = []
-        self.sends_per_task = [0, 0]
-        self.with_labels_sends = [0, 0]
+        self.sends_per_task = [0, 0, 0]
+        self.with_labels_sends = [0, 0, 0]
 
     def close(self) -> None:
         self.loop.close()
+        AsyncBroker.global_task_registry.clear()
 
     def apply(self, op: Dict[str, Any]) -> None:
         self.ops.append(op)
         o = op["op"]
         if o == "new_kicker":
-            ti = op["task"] % 2
+            ti = op["task"] % 3
             self.kickers.append((self.tasks[ti].kicker(), {"task": ti, "labels": {}, "task_id": None, "broker": 0}))
             return
         if o == "kiq_task":
-            ti = op["task"] % 2
+            ti = op["task"] % 3
             self.loop.run_until_complete(self.tasks[ti].kiq(op.get("arg")))
             self.expected.append({"task": ti, "labels": {}, "task_id": None, "broker": 0})
             self.sends_per_task[ti] += 1
@@ -294,7 +300,7 @@ def run_history(case: Dict[str, Any]) -> Outcome:
 
 
 def finish_history(sim: Sim, out: Outcome) -> None:
-    nt = any(sim.sends_per_task[t] >= 2 and sim.with_labels_sends[t] >= 1 for t in (0, 1))
+    nt = any(sim.sends_per_task[t] >= 2 and sim.with_labels_sends[t] >= 1 for t in (0, 1, 2))
     out.nontrivial = nt
     out.classes = [c for c, f in (("sends>=2_with_labels", nt), ("second_broker", any(e["broker"] == 1 for e in sim.expected)),
                                   ("custom_task_id", any(e["task_id"] for e in sim.expected))) if f]
@@ -316,7 +322,7 @@ def make_machine(ctx: Any, ctx_state: Dict[str, Any]) -> Any:
             self.sim.check(out)
             engine.machine_report(ctx, ctx_state, {"part": "kicker_histories", "ops": list(self.sim.ops)}, out, final=False)
 
-        @rule(task=st.integers(0, 1))
+        @rule(task=st.integers(0, 2))
         def new_kicker(self, task: int) -> None:
             self._step({"op": "new_kicker", "task": task})
 
@@ -336,7 +342,7 @@ def make_machine(ctx: Any, ctx_state: Dict[str, Any]) -> Any:
         def kiq(self, k: int) -> None:
             self._step({"op": "kiq", "k": k, "arg": 1})
 
-        @rule(task=st.integers(0, 1))
+        @rule(task=st.integers(0, 2))
         def kiq_task(self, task: int) -> None:
             self._step({"op": "kiq_task", "task": task, "arg": 2})
 
